@@ -236,6 +236,19 @@ def accumulate_loop(fi, fl):
 # --------------------------------------------------------------------------------------------
 # the rule
 # --------------------------------------------------------------------------------------------
+def _default_logical_operator(P, fi) -> set:
+    """Literals used when the filter's logical operator is absent: `str(<op> or "lit")` -> {"lit"}; plain str(<op>) -> {"<none>"}."""
+    out = set()
+    for n in ast.walk(fi.node):
+        if isinstance(n, ast.Call) and dotted(n.func) == "str" and len(n.args) == 1 and "logical_operator" in unparse(n.args[0]):
+            a = n.args[0]
+            if isinstance(a, ast.BoolOp) and isinstance(a.op, ast.Or) and isinstance(a.values[-1], ast.Constant):
+                out.add(a.values[-1].value)
+            else:
+                out.add("<none>")
+    return out
+
+
 def run(ctx):
     P = ctx.prog
     ctx.explanation = (
@@ -258,6 +271,12 @@ def run(ctx):
     check_like(ctx, P, mod, tdb)
     check_logical(ctx, P, db, tdb, log_cls)
     check_application(ctx, P, mod, db, tdb)
+    d_mem = _default_logical_operator(P, P.cls(DB).methods["_filter_data"])
+    d_tdb = _default_logical_operator(P, P.cls(TDB).methods["_build_filter_condition"])
+    ctx.ob("C13.ops", "both-back-ends", "same-default-operator", bool(d_mem) and d_mem == d_tdb and "<none>" not in d_mem,
+           f"a filter with two statements and no logical operator is combined with {sorted(d_mem)} in memory and {sorted(d_tdb)} in TinyDB"
+           + ("" if d_mem == d_tdb else ": the same request selects different objects on the two back-ends"),
+           f"{P.cls(DB).module.rel}:1")
     ctx.floor("C13.ops", 38)
     check_path_root(ctx, P, db, tdb)
     check_missing_attr(ctx, P, db)
